@@ -511,12 +511,13 @@ Qed.
 
 Lemma checksum_nil init : is_u16 init -> checksum [] init = init.
 Proof.
-  intros H. unfold is_u16 in H. unfold checksum. cbn [length Nat.odd firstn sum_pairs]. cbv zeta.
+  intros H. unfold is_u16 in H.
+  change (checksum [] init) with (checksumCombine (w16 (w32 init)) (w16 (w32 init / 2^16))).
   unfold checksumCombine, w16, w32. cbv zeta. consts.
   rewrite (Z.mod_small init 4294967296) by lia.
-  rewrite (Z.mod_small init 65536) by lia.
   rewrite (Z.div_small init 65536) by lia.
-  rewrite (Z.mod_small 0 65536) by lia. rewrite Z.add_0_r.
+  rewrite (Z.mod_small init 65536) by lia.
+  change (0 mod 65536) with 0. rewrite Z.add_0_r.
   rewrite (Z.mod_small init 4294967296) by lia.
   rewrite (Z.div_small init 65536) by lia. rewrite Z.add_0_r.
   rewrite (Z.mod_small init 4294967296) by lia.
